@@ -232,3 +232,8 @@ def run(R) -> None:
 def r4_containment(R) -> None:
     from rules import c04
     c04.r1_index_discipline(R)
+
+
+def run_thorough(R) -> None:
+    from rules.common import thorough_compositions
+    thorough_compositions(R, 'C05.T1', ['solve', 'iter_periods', 'solve_t'])
